@@ -31,8 +31,8 @@ MUT = ('append', 'extend', 'insert', 'add', 'update', 'setdefault')
 
 def run(ctx):
     ix = ctx.index
-    rule_a(ctx, ix)
-    rule_b(ctx, ix)
+    ctx.guard(rule_a, ctx, ix)
+    ctx.guard(rule_b, ctx, ix)
 
 
 def family(ix):
